@@ -73,6 +73,13 @@ fn observe(r: &Rope) -> Value {
       }
     };
   }
+  // the representation itself (feature verif): one-string form or the pieces
+  // with their start offsets
+  guard!("repr", match r.verif_pieces() {
+    None => json!({"full": false, "ps": [[bytes_json(r.to_string().as_bytes()), 0]]}),
+    Some(ps) => json!({"full": true,
+                       "ps": ps.iter().map(|(t, o)| json!([bytes_json(t.as_bytes()), o])).collect::<Vec<_>>()}),
+  });
   guard!("len", json!(r.len()));
   guard!("is_empty", json!(r.is_empty()));
   guard!("to_string", bytes_json(r.to_string().as_bytes()));
